@@ -53,6 +53,19 @@ def cases(rng, tier, Case):
         g = script(ops)
         res.append(Case("hist %d R %s" % (nest, g), "full", {"g": g, "role": "full"}))
         res.append(Case("hist %d R %s" % (nest, script(erased)), "erased", {"g": g, "role": "erased"}))
+    # exhaustive short histories over {add c, remove c, parse} for one rule at a time
+    import itertools
+    probe = "xx a %% b *c* [d](e) `f`\n\n@@@\n\n- g\n@@@\n\n# h"
+    for c, r in (("3", "3"), ("4", "4"), ("1", "1"), ("5", "5"), ("m", "m"), ("l", "l"), ("b", "b"), ("H", "H"), ("s", "s"), ("2", "2")):
+        for k in (2, 3, 4):
+            for seq in itertools.product("+-P", repeat=k):
+                if "P" not in seq or seq[-1] == "P":
+                    continue
+                ops = [("+", "C")] + [(("+", c) if x == "+" else ("-", r) if x == "-" else ("P", probe)) for x in seq] + [("?", r + "3m"), ("D", ""), ("P", probe)]
+                erased = [x for i, x in enumerate(ops) if x[0] != "P" or i == len(ops) - 1]
+                g = script(ops)
+                res.append(Case("hist 100 R %s" % g, "full", {"g": g, "role": "full"}))
+                res.append(Case("hist 100 R %s" % script(erased), "erased", {"g": g, "role": "erased"}))
     # Ruler-level histories
     for _ in range(n):
         items = []
